@@ -290,6 +290,8 @@ pub enum Expr {
     SignExt(Box<Expr>, Box<Expr>),
     /// explicit (redundant or not) parentheses
     Group(Box<Expr>),
+    /// printed as the given token sequence, meaning the given expression
+    Raw(Vec<String>, Box<Expr>),
 }
 
 pub fn lit(n: i64) -> Expr {
@@ -454,6 +456,7 @@ pub fn expr_tokens(e: &Expr, out: &mut Vec<String>) {
             out.push(")".into());
         }
         Expr::Group(a) => paren(a, out),
+        Expr::Raw(toks, _) => out.extend(toks.iter().cloned()),
     }
 }
 
@@ -473,6 +476,7 @@ pub fn fully_grouped(e: &Expr) -> Expr {
         Expr::Random(a) => random(fully_grouped(a)),
         Expr::SignExt(a, b) => Expr::SignExt(Box::new(fully_grouped(a)), Box::new(fully_grouped(b))),
         Expr::Group(a) => group(fully_grouped(a)),
+        Expr::Raw(_, m) => fully_grouped(m),
     }
 }
 
